@@ -149,7 +149,7 @@ func runC10(rc *RunCtx) {
 		retryCfg = nil
 		poison := ""
 		var cleanup func()
-		pd := G.Draw(12)
+		pd := G.Draw(13)
 		if forcePoison >= 0 {
 			pd = forcePoison
 		}
@@ -174,6 +174,8 @@ func runC10(rc *RunCtx) {
 			poison = "listen-fails"
 		case 11:
 			poison = "address-in-use"
+		case 12:
+			poison = "form-clash"
 		}
 		desc := poison
 		bad := mkKeyUnchecked("bad-key", "rc4-md5", "whatever")
@@ -195,6 +197,29 @@ func runC10(rc *RunCtx) {
 				next.Legacy = append(next.Legacy, mLegacy{9100, bad})
 				desc = "bad-cipher in a legacy key"
 			}
+		case "form-clash":
+			// The new configuration wants, first of all, a port that the running one
+			// holds under another form of the address (127.0.0.1:P -> 0.0.0.0:P): the
+			// kernel refuses that bind while the old socket is open. Further on it has
+			// a second, independent defect (a bad cipher), so it cannot be loaded by
+			// any strategy: the previous configuration must go on serving.
+			alt := map[string]string{"127.0.0.1": "0.0.0.0", "127.0.0.2": "0.0.0.0", "::1": "[::]", "0.0.0.0": "127.0.0.1", "::": "0.0.0.0"}
+			var cand []mLn
+			for _, o := range good.owners() {
+				host, port, err := net.SplitHostPort(o.ln.Addr)
+				if err == nil && alt[host] != "" {
+					cand = append(cand, mLn{o.ln.Type, alt[host] + ":" + port})
+				}
+			}
+			if len(cand) == 0 {
+				poison, desc = "", ""
+				break
+			}
+			ln := cand[G.Draw(len(cand))]
+			first := mSvc{Listeners: []mLn{ln}, Keys: append([]*Key(nil), U[:1+G.Draw(len(U))]...)}
+			last := mSvc{Listeners: []mLn{{"tcp", "127.0.0.1:9557"}}, Keys: []*Key{U[0], bad}}
+			next.Services = append(append([]mSvc{first}, next.Services...), last)
+			desc = fmt.Sprintf("%s clashes with a running listener of another address form, and a later service has a bad cipher", lnKey(ln))
 		case "listen-fails":
 			// the j-th bind of this reload fails
 			j := G.Draw(4)
